@@ -31,6 +31,13 @@ Theorem C05_updates_always_applicable s s' ups : idx_sound s -> (forall a v, get
   dsorted true (prevpow s) -> update_tm_validators s = Some (s', ups) ->
   applicable (prevpow s) ups /\ prevpow s' = apply_updates ups (prevpow s) /\ dsorted true (prevpow s').
 Proof. exact (updates_applicable s s' ups). Qed.
+(* ... and what that set IS afterwards: exactly the first MaxValidators entries of the power index walked from the top
+   (by C05_rank_key_order: power descending, address ascending; by C06: exactly the staked unjailed validators), each
+   with power floor(stake / 10^6); everybody else is absent *)
+Theorem C05_set_is_the_top_of_the_index s s' ups : idx_sound s -> dsorted true (prevpow s) -> update_tm_validators s = Some (s', ups) ->
+  let walked := map snd (firstn (Z.to_nat (p_max_validators (pp s))) (rev (powidx s))) in
+  forall a, aget (prevpow s') a = if mem a walked then option_map (fun v => power_of (v_tokens v)) (get_val s a) else None.
+Proof. exact (tm_set_is_top_of_index s s' ups). Qed.
 Theorem C05_genesis_index_sound s0 gvals dao s ups :
   idx_sound s0 -> NoDup (map g_addr gvals) -> (forall g, In g gvals -> aget (vals s0) (g_addr g) = None) ->
   init_chain s0 gvals dao = Some (s, ups) -> idx_sound s.
@@ -41,3 +48,4 @@ Print Assumptions C05_rank_key_order.
 Print Assumptions C05_rank_key_injective.
 Print Assumptions C05_index_entries_are_staked_unjailed_all_histories.
 Print Assumptions C05_updates_always_applicable.
+Print Assumptions C05_set_is_the_top_of_the_index.
